@@ -37,6 +37,13 @@ def findings():
 
 def seeds():
     needs = json.load(open(os.path.join(V, "seeded", "needs.json")))
+    # later rounds keep their description in seeded/<id>/meta.json
+    for sid in sorted(os.listdir(os.path.join(V, "seeded"))):
+        mp = os.path.join(V, "seeded", sid, "meta.json")
+        if sid not in needs and os.path.exists(mp):
+            m = json.load(open(mp))
+            if m.get("change"):
+                needs[sid] = {"change": m["change"], "needs": m.get("needs_to_manifest", "")}
     matrix = {}
     mp = os.path.join(V, "seeded", "MATRIX.txt")
     if os.path.exists(mp):
@@ -48,7 +55,7 @@ def seeds():
     for sid in sorted(needs):
         n = needs[sid]
         res = "; ".join("%s: %s" % (p, r) for p, r in matrix.get(sid, [])) or "(not evaluated yet)"
-        out.append("| `seeded/%s` | %s | %s | %s | %s |" % (sid, sid.split("_")[1], n["change"], n["needs"], res))
+        out.append("| `seeded/%s` | %s | %s | %s | %s |" % (sid, sid.split("_")[1], n["change"].replace("|", "\\|"), n["needs"].replace("|", "\\|"), res))
     return "\n".join(out)
 
 
